@@ -26,11 +26,13 @@ from harness.common import NCPU, MachineryError, pmap
 IFACES = {
     "A": {"doc": "one", "params": [{"typ": "int", "def": "int_pos", "doc": "plain"}, {"typ": "str", "def": "str", "doc": "plain"}],
           "ret": {"typ": "none", "def": "absent", "doc": "absent"}},
+    "A2": {"doc": "one", "params": [{"typ": "int", "def": "int_pos", "doc": "plain"}, {"typ": "str", "def": "str", "doc": "plain"},
+                                     {"typ": "bool", "def": "bool_T", "doc": "absent"}], "ret": {"typ": "none", "def": "absent", "doc": "absent"}},
     "B": {"doc": "one", "params": [{"typ": "float", "def": "float_pos", "doc": "plain"}, {"typ": "bool", "def": "bool_T", "doc": "plain"},
                                     {"typ": "int", "def": "int_neg", "doc": "plain"}], "ret": {"typ": "none", "def": "absent", "doc": "absent"}},
     "C": {"doc": "one", "params": [{"typ": "str", "def": "str", "doc": "dot"}], "ret": {"typ": "none", "def": "absent", "doc": "absent"}},
 }
-SALT = {"A": 0, "B": 2, "C": 3}
+SALT = {"A": 0, "A2": 0, "B": 2, "C": 3}
 BEFORE = "import os\nfrom typing import Optional\n\nBEFORE_CONSTANT = 1\n\n\ndef unrelated_before(q=1):\n    \"\"\"not a target\"\"\"\n    return q\n\n\n"
 AFTER = "\n\nclass UnrelatedAfter(object):\n    \"\"\"not a target\"\"\"\n\n    z: int = 0\n\n\nAFTER_CONSTANT = 2\n"
 
@@ -205,7 +207,7 @@ def _check(run, replay, work):
             want = json.load(f)["case"]["case"]
         cases = [c for c in cases if c["truth"] == want["truth"] and c["init"] == want["init"]]
     elif quick:
-        cases = random.Random(run.seed).sample(cases, min(220, len(cases)))
+        cases = random.Random(run.seed).sample(cases, min(320, len(cases)))
     else:
         run.exhaustive = True
     items = [(c, work, 2 if quick else 3) for c in cases]
